@@ -276,7 +276,7 @@ def run(index, rep, tier):
                 if isinstance(c.func, ast.Attribute) and norm(c.func.value) == "self" and c.func.attr in oc.methods:
                     closure.append(oc.methods[c.func.attr])
             by_eq = [c for g_ in closure for c in calls_in(g_.node) if isinstance(c.func, ast.Attribute) and c.func.attr == "remove" and norm(c.func.value) == "self._item_list"]
-            by_id = [x for g_ in closure for x in ast.walk(g_.node) if isinstance(x, ast.Compare) and len(x.ops) == 1 and isinstance(x.ops[0], ast.Is) and not is_none(x.comparators[0])]
+            by_id = [x for g_ in closure for x in ast.walk(g_.node) if isinstance(x, ast.Compare) and len(x.ops) == 1 and isinstance(x.ops[0], (ast.Is, ast.IsNot)) and not is_none(x.comparators[0])]
             set_side = [c for g_ in closure for c in calls_in(g_.node) if isinstance(c.func, ast.Attribute) and c.func.attr in ("remove", "discard") and norm(c.func.value) == "self._item_set"]
             ok = not (by_eq and set_side) or bool(by_id)
             rep.check(ok, "R11.10", f.qualname, "the list side removes by equality only", fn_where(f, by_eq[0] if by_eq else None), "OrderedSet.%s removes the identical element from both sides" % name,
